@@ -140,6 +140,11 @@ def region_contract(vk, cfg):
     tol = _tol(name)
     n, dim = X.shape
     nq = len(qp)
+    # the region only reads the mesh and the quadrature rule it is given
+    vk.frame_unchanged("mesh.points after Region(...)", mesh.points, X)
+    if vk.sym:
+        qd = _default_quadrature(TEMPLATES[name][0])
+        vk.ensures_true("frame: mesh.cells, the mesh object and the default quadrature rule untouched", bool(np.array_equal(mesh.cells, np.arange(n).reshape(1, -1))) and region.mesh is mesh and bool(np.all(np.abs(np.asarray(qd.points, dtype=float)) <= 1.0 + 1e-12)), "", backend="exec")
     if name.startswith("RegionConstant"):
         # dual (cell-wise constant) space: one shape function, identically one; no gradient is evaluated.
         # It is used through FieldDual on the dual mesh (one point per cell) of the primary region.
